@@ -873,6 +873,12 @@ pub fn gen_building(rng: &mut Rng, cfg: &BuildCfg) -> ABuilding {
                     }
                 }
                 for w in s.walls.iter_mut() {
+                    // an element placed by its own polygon without TILT: a ROOF is horizontal, anything else vertical
+                    if let WallLoc::Poly { tilt, location_top: false, .. } = &w.loc {
+                        if ((w.btype == "ROOF" && *tilt == 0.0) || (w.btype != "ROOF" && *tilt == 90.0)) && rng.chance(0.6) {
+                            omit.push((w.name.clone(), "TILT".into()));
+                        }
+                    }
                     if (w.btype == "EXTERIOR-WALL" || w.btype == "ROOF") && rng.chance(0.25) {
                         // CONSTRUCTION without ABSORPTANCE: 0.60
                         w.absorptance = 0.6;
@@ -923,7 +929,8 @@ pub fn gen_building(rng: &mut Rng, cfg: &BuildCfg) -> ABuilding {
         new_building: rng.chance(0.5),
         ventilation: rng.dec(10.0, 200.0, 2) as f32,
         n50_test: if rng.chance(0.3) { Some(rng.dec(0.5, 9.0, 2) as f32) } else { None },
-        name: format!("Proyecto {}", rng.below(100_000)),
+        // a project may have no name at all
+        name: if rng.chance(0.08) { String::new() } else { format!("Proyecto {}", rng.below(100_000)) },
         omit,
     }
 }
